@@ -830,6 +830,7 @@ inductive TzData where
   | int (n : Int)            -- → `tz.tzoffset(tzname, n)`
   | noneVal                  -- None
   | bad                      -- anything else → TypeError
+  | raises                   -- (callable only) the user's function raises ValueError for this name
   deriving Repr, DecidableEq, Inhabited
 
 inductive TzDflt where
@@ -868,7 +869,7 @@ def fixedZone (name : Option Token) (n : Int) : R TzDescr :=
 /-- `tz.tzstr(tzdata)` inside `_build_tzinfo`, as far as `parse` is concerned: the zone is built or the constructor
     raises.  This IS C08's model of the TZ-string parser (`TzStr.tzstr`, the non-POSIX reading `tz.tzstr(s)` uses):
     `ValueError` for a malformed string ("unknown string format"), `OverflowError` for an offset no `timedelta` holds.
-    `parse()` does not wrap this call, so a malformed TZ string in `tzinfos` lets a plain `ValueError` escape. -/
+    `parse()` wraps `_build_tzaware` since /repo 950345d, so that ValueError arrives as ParserError (`parseResult`). -/
 def tzstrCtor (s : Token) : R Unit :=
   match TzStr.tzstr (String.ofList s) false with
   | .ok _ => .ok ()
@@ -916,6 +917,7 @@ def buildTzinfo (tzi : TzInfos) (tzname : Option Token) (tzoffset : Option Int) 
     pure (.viaTzinfos (.str s) tzname)
   | .int n => fixedZone tzname n
   | .bad => throw .TypeError
+  | .raises => throw .ValueError
 
 /-- `callable(tzinfos) or (tzinfos and res.tzname in tzinfos)` -/
 def TzInfos.applies (tzi : TzInfos) (tzname : Option Token) : Bool :=
@@ -976,7 +978,13 @@ def parseResult (cls : Char → CClass) (info : Info) (o : Opts) (tznames : List
       | .ok t => pure t
       | .error .ValueError => throw PyErr.ParserError      -- `except ValueError` → ParserError
       | .error e => throw e
-    let tz ← if o.ignoretz then pure TzDescr.naive else buildTzaware tznames tzi res
+    -- since /repo 950345d `_build_tzaware` is wrapped like `_build_naive`: `except ValueError` → ParserError (a malformed
+    -- TZ string in tzinfos, a tzinfos callable that raises ValueError); TypeError / OverflowError pass through
+    let tz ← if o.ignoretz then pure TzDescr.naive else
+      match buildTzaware tznames tzi res with
+      | .ok z => pure z
+      | .error .ValueError => throw PyErr.ParserError
+      | .error e => throw e
     pure { dt := naive, tz := tz, tokens := if o.fuzzyWithTokens then skipped else none }
 
 /-- the whole thing on text -/
